@@ -645,6 +645,17 @@ func (env *SpecEnv) evalCall(n *ast.CallExpr) (Val, types.Type, error) {
 			return Val{}, nil, err
 		}
 		return Val{T: e.unboxTerm(a.T, t)}, t, nil
+	case "fn":
+		lit, ok := n.Args[0].(*ast.BasicLit)
+		if !ok {
+			return Val{}, nil, fmt.Errorf("fn needs a string literal")
+		}
+		name, _ := strconv.Unquote(lit.Value)
+		fnv := e.P.funcs[env.pkg.Path()+"::"+name]
+		if fnv == nil {
+			return Val{}, nil, fmt.Errorf("fn(%q): no such function", name)
+		}
+		return Val{T: e.fnId(fnv)}, fnv.Signature, nil
 	case "isNaN":
 		a, _, err := argv(0)
 		if err != nil {
@@ -666,6 +677,37 @@ func (env *SpecEnv) evalCall(n *ast.CallExpr) (Val, types.Type, error) {
 			return Val{}, nil, err
 		}
 		return Val{T: fmt.Sprintf("(and (= (s_arr %s) (s_arr %s)) (= (s_off %s) (+ (s_off %s) %s)))", a.T, s.T, a.T, s.T, k.T)}, tBool, nil
+	case "bytesare":
+		// bytesare(b, "lit"): byte slice b holds exactly the bytes of the literal
+		a, at, err := argv(0)
+		if err != nil {
+			return Val{}, nil, err
+		}
+		lit, ok := n.Args[1].(*ast.BasicLit)
+		if !ok {
+			return Val{}, nil, fmt.Errorf("bytesare needs a string literal")
+		}
+		str, err := strconv.Unquote(lit.Value)
+		if err != nil {
+			return Val{}, nil, err
+		}
+		if isString(at) {
+			parts := []string{fmt.Sprintf("(= (s_len %s) %d)", a.T, len(str))}
+			for i := 0; i < len(str); i++ {
+				parts = append(parts, fmt.Sprintf("(= (str_at %s %d) %d)", a.T, i, str[i]))
+			}
+			return Val{T: and(parts...)}, tBool, nil
+		}
+		sl, ok := at.Underlying().(*types.Slice)
+		if !ok {
+			return Val{}, nil, fmt.Errorf("bytesare on %s", at)
+		}
+		arr := fmt.Sprintf("(select %s (sl_base %s))", e.hget(env.heap, e.S.elemVar(sl.Elem())), a.T)
+		parts := []string{fmt.Sprintf("(= (sl_len %s) %d)", a.T, len(str))}
+		for i := 0; i < len(str); i++ {
+			parts = append(parts, fmt.Sprintf("(= (select %s (+ (sl_off %s) %d)) %d)", arr, a.T, i, str[i]))
+		}
+		return Val{T: and(parts...)}, tBool, nil
 	case "sameslice":
 		a, _, err := argv(0)
 		if err != nil {
@@ -714,10 +756,14 @@ func (env *SpecEnv) evalCall(n *ast.CallExpr) (Val, types.Type, error) {
 			if err != nil {
 				return Val{}, nil, err
 			}
-			args = append(args, v.T)
 			pt, err := env.lookupType(sf.PTypes[i])
 			if err != nil {
 				return Val{}, nil, err
+			}
+			if _, isFn := pt.Underlying().(*types.Signature); isFn {
+				args = append(args, "(fncode "+v.T+")")
+			} else {
+				args = append(args, v.T)
 			}
 			sorts = append(sorts, e.S.sortOf(pt))
 		}
